@@ -70,7 +70,7 @@ RelatorConf(e) ==
    IN got = want
 Next == /\ l <= Len(Rec)
         /\ ("panic" \notin DOMAIN Rec[l] /\ CompleteSym(Rec[l].sym) /\ Connected(Rec[l].sym)
-            /\ Structural(Rec[l]) /\ GroupLevel(Rec[l])
+            /\ Structural(Rec[l]) /\ (Rec[l].big \/ GroupLevel(Rec[l]))
             /\ (IF RelatorConf(Rec[l]) THEN TRUE ELSE PrintT(<<"NOTE", "relator list differs from the traced orbit words", l>>))) = TRUE
         /\ l' = l + 1
 Spec == Init /\ [][Next]_l
